@@ -54,6 +54,8 @@ func replayCorpus(t *testing.T, run *emit.Run) {
 		case "queue-pubkey-encoding-alias":
 			scriptedPubkeyAlias(t, run, false)
 			scriptedPubkeyAlias(t, run, true)
+		case "queue-valset-republished-same-members":
+			scriptedValsetRepublish(t, run)
 		case "batch-compass-redeploy":
 			scriptedRedeploy(t, run)
 		case "batch-more-than-100-confirms":
@@ -308,5 +310,55 @@ func scriptedRedeploy(t *testing.T, run *emit.Run) {
 		h.confirmAs(2, n, true, true)
 		h.confirmAs(0, n, true, true)
 	}
+	h.finish()
+}
+
+// scriptedValsetRepublish (seeded C06-G): a valset update is published and signed by two validators; a validator adds a
+// trait to an account, so a new snapshot with a new id and the SAME members and powers is built and published.  The valset
+// id is part of the update's signing bytes: the pending update must not keep the signatures given for the old id
+// (SendValsetMsgForChain deletes it and queues a fresh one); the validators sign the new one.
+func scriptedValsetRepublish(t *testing.T, run *emit.Run) {
+	h := newQHist(t, run)
+	chain := qchains[0]
+	for v := 0; v < nVals; v++ {
+		a := h.keyAddr(v)
+		h.opRegister(v, []acctRow{{chain: chain, addr: a.Hex(), key: a.Bytes()}})
+	}
+	h.opPublish(true)
+	signAll := func() {
+		var id uint64
+		for _, iv := range h.allItems() {
+			if k, _, _ := describe(iv.em); k == 1 && iv.chain == chain {
+				id = iv.id
+			}
+		}
+		if id == 0 {
+			run.Count("valset-republish", "no valset update in the queue")
+			return
+		}
+		ver := h.vers[id][len(h.vers[id])-1]
+		for v := 0; v < 2; v++ {
+			sig, err := crypto.Sign(crypto.Keccak256(append([]byte(evmkeeper.SignaturePrefix), ver.bytes...)), h.keys[v])
+			if err != nil {
+				t.Fatal(err)
+			}
+			addr := h.reg[v][0].addr
+			err = h.e.cons.AddMessageSignature(h.e.ctx, h.e.vals[v], []*consensustypes.ConsensusMessageSignature{
+				{Id: id, QueueTypeName: turnstoneQueue(chain), Signature: sig, SignedByAddress: addr}})
+			c := classOf(err)
+			if c == 50 {
+				t.Fatalf("AddMessageSignature: %v", err)
+			}
+			if err == nil {
+				h.regAt[fmt.Sprintf("%d/%d", id, v)] = hex.EncodeToString(h.reg[v][0].key)
+			}
+			h.step(fmt.Sprintf("C06.QSign %d %d %d %d (C06.SOver %d %s)", v, qchainID(chain), id, idOf(h.addrIDs, addr), h.ethID(h.keyAddr(v)), ver.coq), c,
+				map[string]any{"op": "sign", "validator": v, "chain": chain, "id": id, "named_address": addr, "signing_key": v, "signed": "current (pending valset update)",
+					"bytes": hex.EncodeToString(ver.bytes), "signature": hex.EncodeToString(sig)})
+		}
+	}
+	signAll()
+	h.opPublish(true) // same members and powers, new snapshot id
+	signAll()
 	h.finish()
 }
